@@ -359,6 +359,8 @@ def oracle_raw(R):
         first = re.sub(r"^.*?error: ", "", R.detail.split("\n")[0])
         if R.schema.name.lower() in CXX_KEYWORDS:
             sig = "expected_(_before_::_token"              # finding F2: schema name used verbatim as a namespace
+        elif re.search(r"Sdai\w+_var(_agg)?\W+does not name a type|no declaration matches .const Sdai\w+_var(_agg)?\W", R.detail):
+            sig = "enum-class-used-before-its-typedef"        # names vary with the schema: classify
         elif re.search(r"type/Sdai\w+\.cc:.*has no member named .\w+_\W", R.detail.split("\n")[0]):
             sig = "select-calls-missing-accessor"          # names vary with the schema: classify
         else:
@@ -494,6 +496,28 @@ def corpus_schemas():
     return out
 
 
+def permuted_shapes():
+    """enumeration, rename, rename of the rename, an entity with attributes of the renamed types and a SELECT over that entity
+    (the order in which SCOPEPrint meets the three enumeration names and the select decides what is printed first)"""
+    import itertools
+    out = []
+    for i, (a, b2, c) in enumerate(itertools.permutations(["status", "state", "condition"])):
+        for sel in ("anything", "zz_pick"):
+            s = G.Schema("perm")
+            s.types = [dict(name=a, body=("enum", ["draft", "released", "withdrawn"])), dict(name=b2, body=("alias", ("N", a))),
+                       dict(name=c, body=("alias", ("N", b2))), dict(name=sel, body=("select", [("E", "thing")])),
+                       dict(name="lst", body=("alias", ("A", "LIST", 1, "?", False, False, ("N", c))))]
+            s.entities = [dict(name="thing", abstract=False, supers=[], attrs=[
+                              dict(name="cond", redecl=None, kind="E", opt=False, type=("N", c), inv=None),
+                              dict(name="st", redecl=None, kind="E", opt=True, type=("N", b2), inv=None)]),
+                          dict(name="holder", abstract=False, supers=[], attrs=[
+                              dict(name="what", redecl=None, kind="E", opt=False, type=("N", sel), inv=None),
+                              dict(name="many", redecl=None, kind="E", opt=False, type=("N", "lst"), inv=None)])]
+            s.tags = {"renamed_enum", "rename_chain_enum_2", "renamed_select"}
+            out.append((f"perm{i}-{sel}", s))
+    return out
+
+
 def tup(x):
     return tuple(tup(y) for y in x) if isinstance(x, list) else x
 
@@ -518,8 +542,8 @@ def report(ctx, b, model_exe, R, label):
                 continue
             seen.add(key)
             s2, R2 = R.schema, R
-            if F.lookup(ctx.pid, key):
-                decl = None            # a listed finding: no need to minimise it again
+            if F.lookup(ctx.pid, key) or key in [k for k, _, _ in ctx.violations]:
+                decl = None            # a listed finding / already reported in this run: no need to minimise it again
             if decl and decl[0] == "script":
                 decl = None
             if decl and decl[0] == "shrink":
@@ -700,6 +724,9 @@ def run(ctx):
     quick = ctx.tier == "quick"
     items = [(nm, s, None) for nm, s in corpus_schemas()]
     run_batch(ctx, b, model_exe, items, "corpus")
+    # hash-order dependent emission (SCOPEPrint walks the symbol table): the same small shape under every assignment of a fixed
+    # set of names to its roles, so that every relative iteration order of the declarations occurs
+    run_batch(ctx, b, model_exe, [(nm, s, None) for nm, s in permuted_shapes()], "name-permutations")
     n_gen = 24 if quick else 700
     g = G.Gen(ctx.rng, n_types=(4, 11))
     core = []
